@@ -5,6 +5,8 @@ package linter
 import (
 	"encoding/json"
 	"fmt"
+	"regexp"
+	"strconv"
 	"strings"
 	"unicode"
 )
@@ -63,7 +65,10 @@ type Comb struct {
 	Fn     bool     `json:"fn"`
 	Name   string   `json:"name"`
 	Typ    string   `json:"typ"`
-	Tag    int      `json:"tag"`
+	// Explicit: the tag is written in the text. Tag: the effective tag as 4 little-endian bytes
+	// (for implicit tags: Combinator.Crc32() as reported by the driver, see withEffectiveTags).
+	Explicit bool  `json:"explicit"`
+	Tag      []int `json:"tag"`
 	Targs  []string `json:"targs"`
 	Fields []Field  `json:"fields"`
 	Res    TE       `json:"res"`
@@ -90,6 +95,9 @@ func (s Schema) norm() Schema {
 		}
 		if s[i].Fields == nil {
 			s[i].Fields = []Field{}
+		}
+		if len(s[i].Tag) != 4 {
+			s[i].Tag = []int{0, 0, 0, 0}
 		}
 		for j := range s[i].Fields {
 			normTE(&s[i].Fields[j].Ty)
@@ -119,11 +127,27 @@ func fld(name string, ty TE) Field               { return Field{Name: name, Ty: 
 func mfld(name string, ty TE, mask string, bit int) Field {
 	return Field{Name: name, Ty: ty, Mask: mask, Bit: bit}
 }
+func tagBytes(v uint32) []int {
+	return []int{int(v & 255), int(v >> 8 & 255), int(v >> 16 & 255), int(v >> 24 & 255)}
+}
+func (c Comb) tagValue() uint32 {
+	if len(c.Tag) != 4 {
+		return 0
+	}
+	return uint32(c.Tag[0]) | uint32(c.Tag[1])<<8 | uint32(c.Tag[2])<<16 | uint32(c.Tag[3])<<24
+}
 func ctor(name, typ string, tag int, targs []string, fields ...Field) Comb {
-	return Comb{Name: name, Typ: typ, Tag: tag, Targs: targs, Fields: fields, Res: tInt()}
+	return Comb{Name: name, Typ: typ, Explicit: true, Tag: tagBytes(uint32(tag)), Targs: targs, Fields: fields, Res: tInt()}
 }
 func fn(name string, tag int, res TE, fields ...Field) Comb {
-	return Comb{Fn: true, Name: name, Tag: tag, Fields: fields, Res: res}
+	return Comb{Fn: true, Name: name, Explicit: true, Tag: tagBytes(uint32(tag)), Fields: fields, Res: res}
+}
+
+// implicit drops the explicit tag: the effective one is filled in from the driver.
+func (c Comb) implicit() Comb {
+	c.Explicit = false
+	c.Tag = []int{0, 0, 0, 0}
+	return c
 }
 
 // ---------------------------------------------------------------------------
@@ -198,7 +222,10 @@ func renderComb(c Comb) string {
 	if c.Fn {
 		sb.WriteString("@any ")
 	}
-	fmt.Fprintf(&sb, "%s#%08x", c.Name, c.Tag)
+	sb.WriteString(c.Name)
+	if c.Explicit {
+		fmt.Fprintf(&sb, "#%08x", c.tagValue())
+	}
 	for _, a := range c.Targs {
 		fmt.Fprintf(&sb, " {%s:#}", a)
 	}
@@ -289,7 +316,11 @@ func Shape(s Schema) []string {
 		} else {
 			sb.WriteString("C ")
 		}
-		fmt.Fprintf(&sb, "%s #%08x explicit=true {%s} [", c.Name, c.Tag, strings.Join(c.Targs, ","))
+		if c.Explicit {
+			fmt.Fprintf(&sb, "%s #%08x explicit=true {%s} [", c.Name, c.tagValue(), strings.Join(c.Targs, ","))
+		} else {
+			fmt.Fprintf(&sb, "%s #???????? explicit=false {%s} [", c.Name, strings.Join(c.Targs, ","))
+		}
 		for i, f := range c.Fields {
 			if i > 0 {
 				sb.WriteString("|")
@@ -309,4 +340,41 @@ func Shape(s Schema) []string {
 		out = append(out, sb.String())
 	}
 	return out
+}
+
+var reImplicitTag = regexp.MustCompile(`#([0-9a-f]{8}) explicit=false`)
+var reAnyTag = regexp.MustCompile(`#([0-9a-f]{8}) explicit=(true|false)`)
+
+// maskImplicitTags hides the computed tag of implicitly tagged combinators in the driver's shape.
+func maskImplicitTags(shapes []string) []string {
+	out := make([]string, len(shapes))
+	for i, l := range shapes {
+		out[i] = reImplicitTag.ReplaceAllString(l, "#???????? explicit=false")
+	}
+	return out
+}
+
+// withEffectiveTags returns a copy of s in which every implicitly tagged combinator carries the
+// tag the real front end computed for it (Combinator.Crc32(), reported in the driver's shape).
+func withEffectiveTags(s Schema, shapes []string) (Schema, error) {
+	if len(shapes) != len(preludeShapes)+len(s) {
+		return nil, fmt.Errorf("shape has %d entries for %d combinators", len(shapes), len(s))
+	}
+	out := make(Schema, len(s))
+	copy(out, s)
+	for i := range out {
+		if out[i].Explicit {
+			continue
+		}
+		m := reAnyTag.FindStringSubmatch(shapes[len(preludeShapes)+i])
+		if m == nil {
+			return nil, fmt.Errorf("no tag in shape %q", shapes[len(preludeShapes)+i])
+		}
+		v, err := strconv.ParseUint(m[1], 16, 32)
+		if err != nil {
+			return nil, err
+		}
+		out[i].Tag = tagBytes(uint32(v))
+	}
+	return out, nil
 }
